@@ -434,6 +434,10 @@ func getHorizontalTileIdOnPoint(lon float64, lat float64, hZoom int64) string {
 
 	// 経度方向のインデックスの計算
 	lonIndex := math.Floor(math.Pow(2, float64(hZoom)) * ((lon + 180.0) / 360.0))
+	// 経度が180度の直前の場合、lon+180 が360に丸められインデックスが 2^hZoom となるため最終列に収める
+	if maxLonIndex := math.Pow(2, float64(hZoom)) - 1; lonIndex > maxLonIndex {
+		lonIndex = maxLonIndex
+	}
 
 	// 緯度をラジアンに変換
 	latRadian := common.DegreeToRadian(lat)
